@@ -986,18 +986,28 @@ is_job_invalid(IMB_MGR *state, const IMB_JOB *job, const IMB_CIPHER_MODE cipher_
                                 return 1;
                         }
                 }
-                if (job->msg_len_to_cipher_in_bytes >= 4) {
+                if (job->msg_len_to_cipher_in_bytes >= 4 || job->msg_len_to_hash_in_bytes >= 8) {
                         const uint64_t xgem_hdr = *(
                                 const uint64_t *) (job->src + job->hash_start_src_offset_in_bytes);
 
                         /* PLI is 14 MS bits of XGEM header */
                         const uint16_t pli = BSWAP64(xgem_hdr) >> 50;
 
+                        /*
+                         * Payload follows the 8-byte XGEM header: it is the ciphered
+                         * range or, when no ciphering is requested, the rest of
+                         * the hashed range
+                         */
+                        const uint64_t payload_len =
+                                (job->msg_len_to_cipher_in_bytes != UINT64_C(0))
+                                        ? job->msg_len_to_cipher_in_bytes
+                                        : (job->msg_len_to_hash_in_bytes - UINT64_C(8));
+
                         /* CRC only if PLI is more than 4 bytes */
                         if (pli > 4) {
                                 const uint16_t crc_len = pli - 4;
 
-                                if (crc_len > job->msg_len_to_cipher_in_bytes - 4) {
+                                if (payload_len < 4 || crc_len > payload_len - 4) {
                                         imb_set_errno(state, IMB_ERR_JOB_PON_PLI);
                                         return 1;
                                 }
